@@ -209,6 +209,14 @@ inline Ctx& ctx()
     return c;
 }
 
+// breadcrumb: the harness describes the input it is about to hand to the library; printed by the sanitizer error
+// callback (vf_main.hpp) so that a fatal report carries its witness
+inline std::string& breadcrumb()
+{
+    static std::string b;
+    return b;
+}
+
 inline void count(std::string const& name, std::uint64_t add = 1) { ctx().counters[name] += add; }
 
 inline void viol(std::string const& key, J const& detail)
